@@ -254,6 +254,14 @@ def f_sort(name: str, left: Any, key: Any, lam: Lam | None) -> list[Any]:
     missing = [i for i, k in enumerate(keys) if k is None]
     if missing and (kf is None or any(not isinstance(items[i], dict) for i in missing)):
         raise Undoc(f"{name}: nil items / nil keys of non-hash items")
+    if kf is not None and lam is None and any(isinstance(it, dict) and key in it and it[key] is None for it in items):
+        raise Undoc(f"{name}: explicit nil keys")
+    if lam is not None and any(lam(it, i) is None for i, it in enumerate(items)):
+        raise Undoc(f"{name}: explicit nil keys")
+    if lam is not None and missing and present:
+        raise Undoc(f"{name}: lambda key missing for some items only")
+    if missing and present and not all(isinstance(k, str) for k, _ in present):
+        raise Undoc(f"{name}: missing keys among non-string keys (CTS only shows strings)")
     ks = [k for k, _ in present]
     if name == "sort":
         if not (all(is_num(k) for k in ks) or all(isinstance(k, str) for k in ks)):
@@ -286,6 +294,11 @@ def _same(a: Any, b: Any) -> bool:
 def f_uniq(left: Any, key: Any, lam: Lam | None) -> list[Any]:
     items = seq_of(left, what="uniq")
     kf = _keyfn("uniq", key, lam)
+    if kf is not None:
+        absent = [isinstance(it, dict) and (lam(it, i) is UNDEF if lam is not None else key not in it) for i, it in enumerate(items)]
+        null = [not a and is_nil(kf(it, i)) for i, (it, a) in enumerate(zip(items, absent))]
+        if any(absent) and any(null):
+            raise Undoc("uniq: both missing and explicit nil keys")
     out: list[Any] = []
     seen: list[Any] = []
     for i, it in enumerate(items):
@@ -321,7 +334,10 @@ def f_map(left: Any, key: Any, lam: Lam | None) -> list[Any]:
     out = []
     for i, it in enumerate(items):
         if lam is not None:
-            out.append(_nn(lam(it, i)))
+            r = lam(it, i)
+            if r is UNDEF and "map_missing_property" in ACTIVE_KNOWN:
+                raise Undoc("known:map_missing_property")
+            out.append(_nn(r))
         elif key is UNDEF or key is None:
             out.append(None)  # CTS 'map, undefined argument'
         elif isinstance(it, dict):
@@ -362,8 +378,8 @@ def _matcher(name: str, pos: list[Any], lam: Lam | None) -> Callable[[Any, int],
 
 def f_select(name: str, left: Any, pos: list[Any], lam: Lam | None) -> Any:
     v = _plain(left)
-    if is_nil(v):
-        items: list[Any] = []
+    if v is UNDEF:
+        items: list[Any] = []  # CTS 'where, left value is undefined'
     elif isinstance(v, list):
         items = seq_of(v, what=name)
     else:
@@ -407,6 +423,8 @@ def f_sum(left: Any, key: Any, lam: Lam | None) -> Any:
 
 def f_first_last(name: str, left: Any) -> Any:
     v = _plain(left)
+    if v is UNDEF:
+        return UNDEF  # docs say nil; nil and undefined differ only for json/compact, which is not asserted
     if isinstance(v, list):
         return (v[0] if name == "first" else v[-1]) if v else None
     if isinstance(v, Range):
